@@ -261,3 +261,79 @@ def maybe_null_field_at_call(prog, f, P, call, argidx, field, may_null):
             if nonnull:
                 return None
     return src
+
+
+# ---------------------------------------------------------------------------------------------------------------
+# literal NULL arguments: the contradiction rule "one path tests the pointer, another dereferences it" specialised to
+# the call sites that are known to pass NULL
+def _direct_regs(f, pname):
+    """registers that hold exactly the parameter's value (the parameter itself and casts of it; no phi, no select)"""
+    regs = {pname}
+    cfg = cfg_of(f)
+    work = [pname]
+    while work:
+        r = work.pop()
+        for u in cfg.users(r):
+            if u.op in ("bitcast", "addrspacecast") and u.res and u.res not in regs and u.ops[0].kind == "reg" and u.ops[0].v == r:
+                regs.add(u.res)
+                work.append(u.res)
+    return regs
+
+
+def rule_null_literal_args(chk, prog, rid, only_modules=None, floor=10):
+    chk.rule(rid, "a call that passes a literal NULL for a pointer parameter of a library function: in the callee every load, store or "
+                  "libc access through exactly that parameter is behind a non-null test of it (a callee that tests the parameter on "
+                  "one path and dereferences it on another is handed the NULL by this caller)")
+    libc_tab = {("memcpy", 0), ("memcpy", 1), ("memmove", 0), ("memmove", 1), ("memset", 0), ("strlen", 0), ("strcmp", 0), ("strcmp", 1),
+                ("strncmp", 0), ("strncmp", 1), ("strcpy", 0), ("strcpy", 1), ("strdup", 0), ("strchr", 0), ("memcmp", 0), ("memcmp", 1),
+                ("strtod", 0), ("strtoll", 0), ("strtoull", 0), ("llvm.memcpy.p0i8.p0i8.i64", 0), ("llvm.memcpy.p0i8.p0i8.i64", 1),
+                ("llvm.memmove.p0i8.p0i8.i64", 0), ("llvm.memmove.p0i8.p0i8.i64", 1), ("llvm.memset.p0i8.i64", 0)}
+    defined = {f.name: f for f in prog.all_functions() if not f.is_decl}
+    n = 0
+    for m in prog.modules:
+        if only_modules is not None and m.srcname not in only_modules:
+            continue
+        for f in m.functions.values():
+            if f.is_decl:
+                continue
+            for i in f.instrs():
+                if i.op != "call" or i.callee not in defined:
+                    continue
+                g = defined[i.callee]
+                for k, a in enumerate(i.ops):
+                    if a.kind != "null" or k >= len(g.params) or g.params[k][1] is None:
+                        continue
+                    n += 1
+                    chk.touched(f)
+                    pname = g.params[k][1]
+                    regs = _direct_regs(g, pname)
+                    bad = None
+                    passed = None
+                    for u, rr, kind in deref_consumers(prog, g, pname, libc_tab):
+                        # only uses of exactly the parameter (deref_consumers also follows phis, which merge in non-null values)
+                        direct = any(o.kind == "reg" and o.v in regs for o in u.ops) or (
+                            u.op in ("load", "store") and any(o.kind == "reg" and o.v in g.defs and g.defs[o.v].op == "getelementptr"
+                                                              and g.defs[o.v].ops[0].kind == "reg" and g.defs[o.v].ops[0].v in regs for o in u.ops))
+                        if not direct:
+                            continue
+                        if not flow.guarded_nonnull(g, regs, u):
+                            bad = (u, kind)
+                            break
+                    if bad is None:
+                        cfg = cfg_of(g)
+                        for r in regs:
+                            for u in cfg.users(r):
+                                if u.op == "call" and u.callee in defined and not flow.guarded_nonnull(g, regs, u):
+                                    passed = u
+                    sig = "%s(arg %d = NULL)" % (i.callee, k)
+                    if bad:
+                        u, kind = bad
+                        chk.refuted(rid, f.name, sig, i.locstr(),
+                                    "%s is called with NULL for its parameter '%s', and %s %s through that parameter at %s on a path "
+                                    "that no non-null test of it guards" % (i.callee, pname, i.callee, "writes" if kind == "store" else "reads (%s)" % kind, u.locstr()),
+                                    {"call": i.raw, "deref": u.raw})
+                    elif passed is not None:
+                        chk.undecided(rid, f.name, sig, i.locstr(), "the callee hands the parameter on to %s unguarded (not followed)" % passed.callee)
+                    else:
+                        chk.proven(rid, f.name, sig, i.locstr(), "no unguarded access through parameter '%s' in %s" % (pname, i.callee))
+    chk.floor(rid, n, floor, "call sites passing a literal NULL to a library function")
